@@ -944,14 +944,13 @@ func pairTypes() []string {
 		for _, o := range [][2]string{{pc.x, pc.y}, {pc.y, pc.x}} {
 			x, y := o[0], o[1]
 			add(fmt.Sprintf("func(%s, %s)", x, y))
-			add(fmt.Sprintf("struct{ F0 %s; F1 %s }", x, y))
 			if pc.cmp {
 				add(fmt.Sprintf("map[%s]%s", x, y))
 			}
 		}
 		add(fmt.Sprintf("func(%s) %s", pc.x, pc.y))
+		add(fmt.Sprintf("struct{ F0 %s; F1 %s }", pc.x, pc.y))
 		add(fmt.Sprintf("func([]%s) *%s", pc.y, pc.x))
-		add(fmt.Sprintf("func(%s, %s)", pc.x, pc.x))
 		add(fmt.Sprintf("func(int, %s, string, %s)", pc.x, pc.y))
 	}
 	return out
